@@ -30,6 +30,7 @@ def plan(tier, seed):
     pairs += G.multiples(rng.sample(pick, 100 if q else len(pick)), 3)
     pairs += G.unions(rng, pick, 150 if q else 3000)
     pairs += G.ionic_balanced(rng, 200 if q else 2000)
+    pairs += [p for p in G.dative(rng, 80 if q else 600) if oracle.balanced(p[1])]
     pairs += [p for p in G.dot_ring_closures(rng, 60 if q else 400) if oracle.balanced(p[1])]
     cases = rowlib.gen_cases(pairs, 30, CFGS, "bal")
     # families in one batch: a reaction next to its own multiples and reversal (sides that consist of the same
@@ -45,6 +46,7 @@ def plan(tier, seed):
     cases += rowlib.corpus_cases(rng, 100 if q else 1500, 10, CFGS, tag="unbal")
     cases += rowlib.gen_cases(G.heavy_unbalanced(rng, 40 if q else 400), 10, CFGS, "heavy")
     cases += rowlib.gen_cases(G.deletions(rng, 40 if q else 400), 10, CFGS, "del")
+    cases += rowlib.gen_cases([p for p in G.dative(rng, 60 if q else 400) if not oracle.balanced(p[1])], 10, CFGS, "dative_unbal")
     return rowlib.spread(cases, 16 if q else 48)
 
 
